@@ -342,7 +342,8 @@ fn is_valid_linebreak(input: &[&str], pos: usize) -> bool {
     if is_whitespace {
         return true;
     }
-    let is_punctuation = is_punctuation(input[pos]);
+    // A backslash escapes what follows it: a line must not end between the two.
+    let is_punctuation = is_punctuation(input[pos]) && input[pos] != "\\";
     if is_punctuation && !is_part_of_type(input, pos) {
         return true;
     }
